@@ -413,7 +413,9 @@ func (e *BinaryOpExpr) execInBatch(chunk []KVPair, number bool, ctx *ExecuteCtx)
 					cmp, err = execStringCompare(left, lval, "=")
 				}
 				if err != nil {
-					return nil, err
+					// an element that cannot be compared with the left operand
+					// ends the test without a match, as in execStringIn / execNumberIn
+					break
 				}
 				if cmp {
 					cmpRet = true
